@@ -79,8 +79,12 @@ AllReplies(cs) == {Echo(i) : i \in DOMAIN cs} \cup {None} \cup Foreign
 Case(c, rs) == [call |-> c, replies |-> rs]
 
 ValidPorts == {0, 1, 25565, 65535}
+T4c == T("id:hub", "2001:db8::1", 25565, M2)     \* same identifier as T4, another address family and metadata
+\* candidates that share an identifier: the pick must come back as the one the service chose, not as its namesake
+MC_Namesakes == {Case(BaseSel(cs), {Echo(i) : i \in DOMAIN cs}) : cs \in {<<T4, T4b>>, <<T4, T4c>>, <<T4c, T6, T4>>, <<T4b, T4c, T4>>}}
 MC_QuickSelect ==
-     {Case(BaseSel(cs), AllReplies(cs)) : cs \in {<<>>, <<T4>>, <<T6>>, <<T4, T6>>, <<T6m, T4b, T6>>}}
+     MC_Namesakes
+  \cup {Case(BaseSel(cs), AllReplies(cs)) : cs \in {<<>>, <<T4>>, <<T6>>, <<T4, T6>>, <<T6m, T4b, T6>>}}
   \cup {Case(BaseSel(<<T("id:hub", ip, p, BM)>>), {Echo(1)}) : ip \in CanonIps, p \in {0, 25565, 65535}}
   \cup {Case(BaseSel(<<T("id:hub", ip, 25565, m)>>), {Echo(1)}) : ip \in {"10.0.0.1", "2001:db8::1"}, m \in MC_RouterMetas}
   \cup {Case(BaseSel(<<T(id, ip, 25565, BM)>>), {Echo(1)}) : ip \in {"10.0.0.1", "2001:db8::1"}, id \in IdLabels}
